@@ -83,7 +83,9 @@ func runC02Rest(c *Ctx, q *qbAnchors, funcs []*ssa.Function, lc *LockClass) {
 			if fn.Parent() != nil || fn.Name() != "OnDone" || recvNamedOfFn(fn) != d.T {
 				continue
 			}
-			for _, ci := range calls(fn, func(ci ssa.CallInstruction) bool { return ci.Common().IsInvoke() && ci.Common().Method.Name() == "onDone" }) {
+			for _, ci := range calls(fn, func(ci ssa.CallInstruction) bool {
+				return ci.Common().IsInvoke() && ci.Common().Method.Name() == "onDone"
+			}) {
 				ok := false
 				for _, a := range ci.Common().Args {
 					if u, isLoad := a.(*ssa.UnOp); isLoad && isFieldAccess(u.X, d.T, d.sizeField) {
